@@ -9,6 +9,7 @@ mod reflex;
 mod rng;
 mod run;
 mod session;
+mod tcp;
 mod wire;
 
 use run::{RunCtx, Tier};
